@@ -489,11 +489,12 @@ def main():
                 if what != "same":
                     # the same start through the direct entry points on an object that HOLDS an optimal solution: solve, load the
                     # other basis, solve again; the basis then handed back with OPTIMAL must be an optimal one
-                    did = "%s.d%d%s" % (cid, k, algo)
                     ent = "PRIMAL" if algo == "P" else "DUAL"
-                    dcases.append((did, "\n".join(["CASE " + did, lp_block(lp), "PARAM 0 %d" % pp, "PARAM 2 %d" % dp, "PARAM 7 %d" % sc, "SOLVE " + ent, "LOADBASIS %s %s" % (c0, r0),
-                                                   "SOLVE " + ent, "KEEPBASIS", "ACCESS", lp_block(lp), "BOPT KEPT -"]) + "\n"))
-                    dmeta[did] = (lp, what, ent, c0, r0)
+                    for lop in ("LOADBASIS", "LOADBASISQ"):     # mpq_QSload_basis_array / mpq_QSload_basis
+                        did = "%s.d%d%s%s" % (cid, k, algo, lop[9:])
+                        dcases.append((did, "\n".join(["CASE " + did, lp_block(lp), "PARAM 0 %d" % pp, "PARAM 2 %d" % dp, "PARAM 7 %d" % sc, "SOLVE " + ent, "%s %s %s" % (lop, c0, r0),
+                                                       "SOLVE " + ent, "KEEPBASIS", "ACCESS", lp_block(lp), "BOPT KEPT -"]) + "\n"))
+                        dmeta[did] = (lp, what, ent, c0, r0)
     _, wouts, wcr = run_cases("h_fac", wcases, per_case_timeout=15)
     wscripts = dict(wcases)
     ck.cov["crashes_seen"] += [dict(case=c, rc=rc) for c, rc, e in wcr]
